@@ -13,7 +13,7 @@ harness knows, independently of the code under test, whether a fault point lies 
 loop = the input class of known finding F26).
 
 Nodes: ["t", text] | ["x"] | ["a", n] (``{{ af(n) }}``: async data function awaiting n times) |
-["s"] (sync data function) | ["i"] (innermost loop variable) |
+["s"] (sync data function) | ["gi", n, keykind] (``{{ gi[...] }}``: subscript returning a coroutine) | ["i"] (innermost loop variable) |
 ["for", itkind, count, filt, loopuse, else, recursive, body] | ["blk", name, scoped, body] | ["sup"] |
 ["inc", name, with_context, mode] (mode: plain / ignore missing / missing target / name list) | ["if", body] | ["fil", body] | ["set", body] |
 ["mac", idx, body, callbody | None] | ["imp", lib, with_context]
@@ -46,7 +46,7 @@ LEVEL = "fault_enumeration"
 RULE = (
     "Hypothesis draws a template set (main template, optional extends chain of depth <= 2 whose extends tags are plain, if-wrapped (not known at compile time) or preceded by statements/output, included templates some of "
     "which extend the chain, a macro library; bodies with nested blocks, super(), includes with and without context, with ignore missing (existing and missing targets) and name lists, "
-    "imports, macros and call blocks, filter/set buffers, for loops over lists / async generators / async iterators, "
+    "imports, macros and call blocks, filter/set buffers, subscripts whose items are awaitables, for loops over lists / sync generator objects / generator-returning filters (batch, items) / async generators / async iterators, "
     "filtered loops with plain or async tests, loop.index/last/length, else, recursive). A dry run counts N chunks of "
     "generate_async, A suspensions of render_async / of a generate_async consumer and J data calls; then every fault "
     "point is one case: consumer aclose() after k chunks (k=0..N), CancelledError at suspension k (k=0..A, render and "
@@ -98,6 +98,8 @@ def _body_src(nodes, d):
             out.append("{{ af(%d) }}" % n[1])
         elif k == "s":
             out.append("{{ sf() }}")
+        elif k == "gi":  # subscript whose result is an awaitable created per lookup (int key / str key / variable key)
+            out.append({0: "{{ gi[%d] }}", 1: "{{ gi['k%d'] }}", 2: "{{ gi[x ~ %d] }}"}[n[2]] % n[1])
         elif k == "i":
             out.append("{{ i%d }}" % (d - 1) if d > 0 else "{{ x }}")
         elif k == "for":
@@ -107,9 +109,11 @@ def _body_src(nodes, d):
                 fn = {"s": "flt", "g": "gflt", "c": "aflt"}[itk]
                 test = " if %s" % var if filt == "truthy" else " if ap(%s)" % var
             else:
-                fn = {"s": "seq", "g": "ag", "c": "ai"}[itk]
+                # y: sync generator object, b / d: generator-returning filters (batch, items)
+                fn = {"s": "seq", "g": "ag", "c": "ai", "y": "sgen", "b": "seq", "d": "dct"}[itk]
                 test = ""
-            s = "{%% for %s in %s(%d)%s%s %%}" % (var, fn, cnt, test, " recursive" if rec else "")
+            it = "%s(%d)" % (fn, cnt) + ({"b": "|batch(2)", "d": "|items"}.get(itk, "") if not filt else "")
+            s = "{%% for %s in %s%s%s %%}" % (var, it, test, " recursive" if rec else "")
             s += {0: "", 1: "{{ loop.index }}", 2: "{{ loop.last }}", 3: "{{ loop.length }}", 4: "{{ loop.revindex }}"}[lu]
             s += _body_src(body, d + 1)
             if els:
@@ -243,6 +247,12 @@ class _H:
             h.call()
             return "s"
 
+        class Items:
+            """item lookup returns a fresh coroutine (awaits once per trailing digit value, like af)"""
+
+            def __getitem__(self, key):
+                return af(int(str(key)[-1]))
+
         async def ap(v):  # only ever used as the test of a filtered loop
             h.on_stack += 1
             try:
@@ -264,6 +274,14 @@ class _H:
         def ai(n):
             return _AIter(h, n, False)
 
+        def sgen(n):  # a plain (sync) generator object from the context
+            for i in range(n):
+                h.call()
+                yield i
+
+        def dct(n):
+            return {i: "v" for i in range(n)}
+
         def flt(n):
             return _SyncF(h, n)
 
@@ -273,7 +291,7 @@ class _H:
         def gflt(n):
             return _AsyncF(h, n, "g")
 
-        return dict(x="X", af=af, sf=sf, ap=ap, seq=seq, ag=ag, ai=ai, flt=flt, aflt=aflt, gflt=gflt)
+        return dict(x="X", af=af, sf=sf, ap=ap, seq=seq, ag=ag, ai=ai, flt=flt, aflt=aflt, gflt=gflt, gi=Items(), sgen=sgen, dct=dct)
 
 
 class _TrackedIt:
@@ -588,6 +606,11 @@ def execute(case, judge_floop=False):
     labels = ["kind_" + fault.get("kind", "none"), "via_" + fault.get("via", "render"), "end_" + status]
     if '"inc", ' in core.canon(case["t"]) and any(m in core.canon(sources(case)) for m in ("ignore missing", "['zz'")):
         labels.append("include_ignore_or_list")
+    allsrc = core.canon(src)
+    if "sgen(" in allsrc or "|batch" in allsrc or "|items" in allsrc:
+        labels.append("sync_generator_loop")
+    if "gi[" in allsrc:
+        labels.append("awaitable_subscript")
     if any(td.get("ext") and td.get("extmode", 0) in (1, 3) for td in case["t"].values()):
         labels.append("dynamic_extends")
     if aio:
@@ -647,7 +670,7 @@ def _strategy(maxdepth):
 
         def node(self, c, depth):
             draw = self.draw
-            kinds = ["t", "x", "a", "a", "a", "s"]
+            kinds = ["t", "x", "a", "a", "a", "s", "gi"]
             if c["loopd"] > 0:
                 kinds.append("i")
             if c["super"]:
@@ -669,8 +692,10 @@ def _strategy(maxdepth):
                 return [k]
             if k == "a":
                 return ["a", draw(st.sampled_from([1, 1, 0, 2]))]
+            if k == "gi":
+                return ["gi", draw(st.sampled_from([1, 0, 2])), draw(st.sampled_from([0, 1, 2]))]
             if k in ("for", "ffor"):
-                itk = draw(st.sampled_from(["s", "g", "c"]))
+                itk = draw(st.sampled_from(["s", "g", "c"] if k == "ffor" else ["s", "g", "c", "y", "y", "b", "d"]))
                 cnt = draw(st.sampled_from([2, 3, 1, 0, 4]))
                 filt = draw(st.sampled_from(["truthy", "ap"])) if k == "ffor" else None
                 lu = draw(st.sampled_from([0, 0, 0, 1, 2, 3, 4]))
@@ -876,7 +901,7 @@ PHASES = {"quick": [(3, 1000)], "thorough": [(3, 2000), (4, 4000), (5, 2000)]}
 def floors(total, tier):
     lab = total.labels
     need = ["kind_close", "kind_cancel", "kind_raise", "kind_none", "drv_aio", "in_block", "in_include", "in_parent",
-            "in_import", "in_include_ext", "dynamic_extends", "include_ignore_or_list", "end_cancelled", "end_boom", "nontrivial"]
+            "in_import", "in_include_ext", "dynamic_extends", "include_ignore_or_list", "sync_generator_loop", "awaitable_subscript", "end_cancelled", "end_boom", "nontrivial"]
     missing = [n for n in need if lab.get(n, 0) < 20]
     if missing:
         return "label classes below floor 20: %s" % missing
